@@ -586,9 +586,86 @@ def check_chunk(job: tuple[int, list[dict[str, Any]], bool]) -> dict[str, Any]:
 
 
 # =========================================================================== perturbations (iii)
-TYPE_POOL = [["A"], ["B"], ["D"], ["N"], ["A", "N"], ["B", "N"], ["A", "D"], ["B", "D"], ["B", "C"], ["B", "E"],
-             ["A", "D", "N"], ["B", "D", "N"], ["B", "C", "N"], ["E", "N"], ["D", "N"]]
-CLASS_POOL = ["A", "B", "C", "D", "E"]
+# (no E: the class whose truthiness varies is explored only in the exhaustive slices, where finding C01/1 lives;
+#  seeded spaces must stay clear of it so that runs do not depend on the seed)
+TYPE_POOL = [["A"], ["B"], ["D"], ["N"], ["A", "N"], ["B", "N"], ["A", "D"], ["B", "D"], ["B", "C"], ["C", "D"],
+             ["A", "D", "N"], ["B", "D", "N"], ["B", "C", "N"], ["C", "N"], ["D", "N"]]
+CLASS_POOL = ["A", "B", "C", "D"]
+
+
+def mentions_E(rec: dict[str, Any]) -> bool:
+    return '"E"' in json.dumps([rec["h"], rec["p"]])
+
+
+def reductions(rec: dict[str, Any]) -> list[dict[str, Any]]:
+    """Programs with one statement removed, one block removed, or one block replaced by its (first) body."""
+    p = rec["p"]
+    n = len(p)
+    res = []
+
+    def close(i: int) -> tuple[int, list[int]]:
+        """(index of the matching end, indices of the else/case tokens at depth 0) of the compound opened at i."""
+        d = 0
+        seps = []
+        for j in range(i + 1, n):
+            k = p[j]["k"]
+            if k in ("if", "while", "match"):
+                d += 1
+            elif k == "end":
+                if d == 0:
+                    return j, seps
+                d -= 1
+            elif k in ("else", "case") and d == 0:
+                seps.append(j)
+        raise MachineryError("unbalanced")
+
+    for i, t in enumerate(p):
+        k = t["k"]
+        if k in ("else", "end", "case"):
+            continue
+        if k in ("if", "while", "match"):
+            e, seps = close(i)
+            res.append(p[:i] + p[e + 1:])                                   # drop the whole statement
+            first_end = seps[0] if seps else e
+            body = p[i + 1:first_end]
+            res.append(p[:i] + body + p[e + 1:])                            # keep only the first body
+            if seps and k == "if":
+                res.append(p[:i] + p[seps[0] + 1:e] + p[e + 1:])            # keep only the else body
+                res.append(p[:seps[0]] + p[e:])                             # drop the else part
+        else:
+            res.append(p[:i] + p[i + 1:])
+    out = []
+    for q in res:
+        # an else body must not be empty, break/continue must stay inside a loop
+        ok = True
+        depth_loop = []
+        for j, t in enumerate(q):
+            if t["k"] == "else" and q[j + 1]["k"] == "end":
+                ok = False
+            if t["k"] in ("if", "while", "match"):
+                depth_loop.append(t["k"])
+            elif t["k"] == "end":
+                depth_loop.pop()
+            elif t["k"] in ("brk", "cnt") and "while" not in depth_loop:
+                ok = False
+        if ok and q:
+            out.append({"h": rec["h"], "p": q})
+    return out
+
+
+def minimise(rec: dict[str, Any], kind: str) -> dict[str, Any]:
+    """1-minimal failing program: no single reduction still fails (real mypy + CPython decide)."""
+    cur = {"h": rec["h"], "p": rec["p"]}
+    for _ in range(40):
+        cands = reductions(cur)
+        if not cands:
+            break
+        res = check_chunk((-1, cands, False))
+        failing = sorted({bd["fi"] for bd in res["bad"]})
+        if not failing:
+            break
+        cur = cands[failing[0]]
+    return cur
 
 
 def perturbations(rec: dict[str, Any]) -> list[dict[str, Any]]:
@@ -709,10 +786,14 @@ def cli_crosscheck(recs: list[dict[str, Any]], root: str) -> dict[str, Any]:
 
 # =========================================================================== main
 def tlc_plan(tier: str, seed: int) -> list[dict[str, Any]]:
-    mc = ["S1", "S2", "L0", "P0"] if tier == "quick" else ["S1t", "S2t", "L1", "E1", "C1", "R1", "P1"]
-    muts = ["dropopt", "elsedrop"] if tier == "quick" else ["dropopt", "noskip", "elsedrop", "asgnocheck", "jumpmiss"]
-    nsim = 350 if tier == "quick" else 4000
     plan: list[dict[str, Any]] = []
+    mc = ["S1", "S2", "L0", "P0"] if tier == "quick" else ["S1t", "S2t", "L1", "E1", "C1", "R1", "P1"]
+    plan.append({"name": "T0", "kind": "gen", "cfg": "Gen_FlowTyping_T0.cfg", "workers": 3})
+    plan.append({"name": "T0-pinned", "kind": "finding", "cfg": "Finding_FlowTyping_T0.cfg", "workers": 3})
+    if tier == "thorough":
+        plan.append({"name": "T0-repaired", "kind": "fixcheck", "cfg": "MC_FlowTyping_T0fix.cfg", "workers": 3})
+    muts = ["dropopt", "elsedrop"] if tier == "quick" else ["dropopt", "noskip", "elsedrop", "asgnocheck", "jumpmiss"]
+    nsim = 300 if tier == "quick" else 4000
     for m in mc:
         plan.append({"name": m, "kind": "mc", "cfg": "MC_FlowTyping_%s.cfg" % m, "workers": 4 if tier == "quick" else TLC_WORKERS})
     for m in ("Sim", "SimW"):
@@ -763,6 +844,7 @@ def main(argv: list[str]) -> int:
     progs: list[tuple[str, dict[str, Any]]] = []
     spec_violated: list[str] = []
     mut: dict[str, Any] = {}
+    model_finding: dict[str, Any] = {}
     fired: set[str] = set()
     all_actions: set[str] = set()
     for job, r in zip(plan, results):
@@ -773,6 +855,20 @@ def main(argv: list[str]) -> int:
             if r.violated not in ("MemberOK", "RevealOK", "ReachOK", "NoWrong"):
                 raise MachineryError("specification mutant %s not rejected: %s" % (job["name"], r.violated))
             continue
+        if job["kind"] == "finding":
+            # the slice that contains finding C01/1, checked with the join rule of the pinned tree: TLC is expected to
+            # produce the counterexample; whether the tree under test still has the defect is decided by the replay
+            model_finding = {"cfg": job["cfg"], "violated": r.violated, "states": r.distinct}
+            states += r.distinct
+            transitions += r.generated
+            continue
+        if job["kind"] == "fixcheck":
+            if r.violated:
+                raise MachineryError("%s: the repaired join rule violates %s" % (job["cfg"], r.violated))
+            states += r.distinct
+            transitions += r.generated
+            cov[job["name"]] = {"states": r.distinct, "transitions": r.generated, "holds": True}
+            continue
         recs = programs_of(r)
         if job["kind"] == "mc":
             states += r.distinct
@@ -781,6 +877,13 @@ def main(argv: list[str]) -> int:
                                     programs=len(recs), wall_s=round(r.wall, 1), exhaustive=r.violated is None)
             all_actions |= set(r.coverage)
             fired |= {a for a, (d, t) in r.coverage.items() if t > 0}
+        elif job["kind"] == "gen":
+            if r.violated:
+                raise MachineryError("%s: %s" % (job["cfg"], r.violated))
+            states += r.distinct
+            transitions += r.generated
+            cov[job["name"]] = {"states": r.distinct, "transitions": r.generated, "programs": len(recs),
+                                "wall_s": round(r.wall, 1), "exhaustive": True}
         else:
             cov[job["name"]] = {"simulated_programs": len(recs), "wall_s": round(r.wall, 1), "seed": job["seed"]}
         if r.violated:
@@ -809,10 +912,11 @@ def main(argv: list[str]) -> int:
         cli_async = pool.apply_async(cli_crosscheck, (recs_all[:CHUNK], root))
         out = pool.map(check_chunk, jobs, chunksize=1)
         # ---- 3. perturbations of accepted programs
-        accepted_recs = [rec for res in out for rec, a in zip(jobs[res["cid"]][1], res["acc_flags"]) if a]
+        accepted_recs = [rec for res in out for rec, a in zip(jobs[res["cid"]][1], res["acc_flags"])
+                         if a and not mentions_E(rec)]
         accepted_recs.sort(key=source_key)
         rnd.shuffle(accepted_recs)
-        base = accepted_recs[: (120 if tier == "quick" else 1500)]
+        base = accepted_recs[: (100 if tier == "quick" else 800)]
         pert: dict[str, dict[str, Any]] = {}
         for rec in base:
             for c in perturbations(rec):
@@ -847,19 +951,27 @@ def main(argv: list[str]) -> int:
         bad += [dict(bd, perturbation=True) for bd in res["bad"]]
     bad.sort(key=lambda bd: (len(bd["rec"]["p"]), bd["prog"]))
     _init_worker(root)
+    seen_min: set[str] = set()
     for bd in bad[:40]:
         again = check_chunk((-1, [bd["rec"]], False))        # reproduce alone, in a fresh module
         if not again["bad"]:
             raise MachineryError("violation not reproduced in isolation: " + bd["prog"])
-        a = again["bad"][0]
-        key = "unsound:%s:%s" % (a["kind"], bd["prog"])
-        v.violation(key, {"rec": bd["rec"], "arg": a["arg"], "conds": a["conds"], "kind": a["kind"],
-                          "python": render_module([bd["rec"]]).text.split("\n")[13:]},
-                    "mypy accepts `%s` but under CPython (x=%s, cond()=%s): %s" % (bd["prog"], a["arg"], a["conds"], a["what"]))
+        mrec = minimise(bd["rec"], again["bad"][0]["kind"])   # 1-minimal failing program = the key
+        a = check_chunk((-1, [mrec], False))["bad"][0]
+        prog = source_key(mrec)
+        key = "unsound:%s:%s" % (a["kind"], prog)
+        if key in seen_min:
+            continue
+        seen_min.add(key)
+        v.violation(key, {"rec": mrec, "arg": a["arg"], "conds": a["conds"], "kind": a["kind"], "found_as": bd["prog"],
+                          "python": render_module([mrec]).text.split("\n")[13:]},
+                    "mypy accepts `%s` but under CPython (x=%s, cond()=%s): %s" % (prog, a["arg"], a["conds"], a["what"]))
     for d in drift[:10]:
         print("MODEL-DRIFT: %s -- %s" % (d["prog"], d["why"]), flush=True)
     # machinery complaints (binding broken / vacuous); a violation found above takes precedence
     complaints: list[str] = []
+    if model_finding and not model_finding.get("violated"):
+        complaints.append("%s: TLC no longer produces the counterexample of finding C01/1" % model_finding["cfg"])
     if spec_violated and not bad:
         complaints.append("the specification violates %s but real mypy + CPython show no unsoundness: model drift" % spec_violated)
     if not recs_all or n_probe == 0 or tot["executions"] == 0 or tot["probe_hits"] == 0 or n_acc == 0:
@@ -897,6 +1009,7 @@ def main(argv: list[str]) -> int:
         "samples": [sample],
         "tlc": cov,
         "spec_mutants_rejected": mut,
+        "model_level_finding": model_finding,
         "cli_real_typeshed_crosscheck": cli,
         "wall_tlc_s": round(t_tlc, 1), "wall_replay_s": round(t_replay, 1),
         "exhaustive": False,
